@@ -122,7 +122,8 @@ class InputModified(Exception):
 
 
 def run_impl(c):
-    m = grm.Matcher(tolerance=c['tol'], min_weight=c['mw'], min_match=c['mm'])
+    mm = c['mm'] if not c.get('mm_type') else getattr(np, c['mm_type'])(c['mm'])        # min_match also as a NumPy integer scalar (typed parameter records)
+    m = grm.Matcher(tolerance=c['tol'], min_weight=c['mw'], min_match=mm)
     args = dict(centers=c['pos'].copy(), refineds=c['pos'].copy(), peak_values=c['w'].copy(), peak_elevations=c['w'].copy(),
                 zero=c['start'][0].copy(), a=c['start'][1].copy(), b=c['start'][2].copy())
     before = {k: v.copy() for k, v in args.items()}
@@ -279,6 +280,11 @@ def adversarial(rng):
     out.append(('inf elevation picked up in round 2', dict(centers=far, refineds=far, peak_values=wf_, peak_elevations=wf_, zero=z, a=a + np.array([0.2, 0.0]), b=b, _matcher=dict(tolerance=0.45, min_weight=0.1, min_match=3))))
     far2 = np.vstack([base, z - 5 * b + 1 * a])
     out.append(('inf elevation picked up in round 2 (b)', dict(centers=far2, refineds=far2, peak_values=wf_, peak_elevations=wf_, zero=z, a=a, b=b + np.array([0.0, 0.22]), _matcher=dict(tolerance=0.45, min_weight=0.1, min_match=3))))
+    # parameters given as an explicit zero are zeros, not "unset": min_weight = 0 admits every non-negative elevation, tolerance = 0 matches nothing
+    wz = np.array([1, 1, 1, 0.02, 0.05, 0.08, 0.0999, 1, 0.0])
+    out.append(('min_weight = 0', dict(centers=base, refineds=base, peak_values=wz, peak_elevations=wz, zero=z, a=a, b=b, _matcher=dict(tolerance=3, min_weight=0, min_match=3), _expect='all')))
+    out.append(('min_weight = 0.0', dict(centers=base, refineds=base, peak_values=wz, peak_elevations=wz, zero=z, a=a, b=b, _matcher=dict(tolerance=3, min_weight=0.0, min_match=3), _expect='all')))
+    out.append(('tolerance = 0', dict(centers=base, refineds=base, peak_values=w, peak_elevations=w, zero=z, a=a, b=b, _matcher=dict(tolerance=0, min_weight=0.1, min_match=3), _expect='invalid')))
     out.append(('zero weights', dict(centers=base, refineds=base, peak_values=w * 0, peak_elevations=w * 0, zero=z, a=a, b=b)))
     out.append(('too few', dict(centers=base[:2], refineds=base[:2], peak_values=w[:2], peak_elevations=w[:2], zero=z, a=a, b=b)))
     return out
@@ -286,7 +292,7 @@ def adversarial(rng):
 
 def mk_replay(c, fail):
     return {'kind': 'input', 'call': 'Matcher.fastmatch', 'args': {'pos': c['pos'].tolist(), 'w': c['w'].tolist(), 'kinds': c['kinds'], 'true_idx': c['true_idx'],
-            'start': [v.tolist() for v in c['start']], 'tol': c['tol'], 'mw': c['mw'], 'mm': c['mm'], 'complete': bool(c.get('complete', True)), 'owed': c.get('owed'), 'pos_dtype': str(c['pos'].dtype)}, 'failure': fail}
+            'start': [v.tolist() for v in c['start']], 'tol': c['tol'], 'mw': c['mw'], 'mm': c['mm'], 'complete': bool(c.get('complete', True)), 'owed': c.get('owed'), 'pos_dtype': str(c['pos'].dtype), 'mm_type': c.get('mm_type')}, 'failure': fail}
 
 
 def adversarial_failure(desc):
@@ -295,6 +301,7 @@ def adversarial_failure(desc):
             continue
         kw = dict(kw)
         mk = kw.pop('_matcher', dict(tolerance=3, min_weight=0.1, min_match=3))
+        expect = kw.pop('_expect', None)
         try:
             m = grm.Matcher(**mk).fastmatch(**kw)
         except Exception as e:  # noqa
@@ -303,7 +310,12 @@ def adversarial_failure(desc):
         if desc in ('NaN position', 'inf position'):
             bad = ~np.isfinite(kw['refineds']).all(axis=1)
             okk = (not m.isnan()) and np.array_equal(m.selector, ~bad) and len(m.indices) == 8
-        return None if okk else 'adversarial input (%s): malformed result' % desc
+        if expect == 'all':
+            okk = (not m.isnan()) and bool(m.selector.all()) and len(m.indices) == len(kw['centers'])
+        elif expect == 'invalid':
+            okk = bool(m.isnan()) and not m.selector.any()
+        return None if okk else 'adversarial input (%s): %s' % (desc, 'malformed result' if expect is None else 'expected %s, got %s with %d of %d peaks selected' % (
+            'every peak selected' if expect == 'all' else 'an invalid match', 'an invalid match' if m.isnan() else 'a valid match', int(m.selector.sum()), len(m.selector)))
     return 'unknown adversarial case %s' % desc
 
 
@@ -317,7 +329,7 @@ def replay(body):
             return 1
         return 0
     c = dict(pos=np.array(a['pos'], dtype=a.get('pos_dtype', 'float64')), w=np.array(a['w']), kinds=a['kinds'], true_idx=[None if t is None else tuple(t) for t in a['true_idx']],
-             start=tuple(np.array(v) for v in a['start']), tol=a['tol'], mw=a['mw'], mm=a['mm'], complete=a.get('complete', True), owed=a.get('owed'))
+             start=tuple(np.array(v) for v in a['start']), tol=a['tol'], mw=a['mw'], mm=a['mm'], complete=a.get('complete', True), owed=a.get('owed'), mm_type=a.get('mm_type'))
     fail = defaults_failure(c) if a.get('defaults') else stmt_failure(c)
     print(json.dumps({'failure_now': fail}, indent=1))
     if fail:
@@ -418,6 +430,8 @@ def run(ctx):
     # (S) statement + covariance + adversarial
     for k in range(ctx.n(300, 10000)):
         c = gen(rng)
+        if k % 6 == 1:
+            c['mm_type'] = ['uint8', 'int64', 'uint16', 'int32', 'uint64'][(k // 6) % 5]
         if k % 7 == 3:
             c = add_junk(c, rng)
             ctx.hist('non-finite junk peak', 1)
